@@ -235,6 +235,37 @@ func checkC13(c *core.Ctx) {
 			})
 		}
 	}
+	// CE target matrices mixing hard (one-hot) rows with soft rows, including
+	// soft rows whose entries sum to exactly 1: every combination of row
+	// patterns for 2 and 3 rows
+	rowPats := map[int][][]float64{
+		2: {{1, 0}, {0, 1}, {0.5, 0.5}, {0.25, 0.75}, {0.3, 0.7}, {0.3, 0.3}, {0, 0}, {1, 1}},
+		3: {{1, 0, 0}, {0, 0, 1}, {0.5, 0.25, 0.25}, {0.3, 0.3, 0.4}, {0.5, 0.5, 0}, {0.2, 0.2, 0.2}},
+	}
+	for _, cl := range []int{2, 3} {
+		pats := rowPats[cl]
+		for _, b := range []int{2, 3} {
+			total := 1
+			for i := 0; i < b; i++ {
+				total *= len(pats)
+			}
+			for code := 0; code < total; code++ {
+				for _, form := range []int{0, 2} {
+					cl, b, code, form := cl, b, code, form
+					c.Case(fmt.Sprintf("CE/mixedrows/%dx%d/%d/f%d", b, cl, code, form), true, func() core.Verdict {
+						p := enum.Generic([]int{b, cl}, 182, 0.05, 0.95, false)
+						t := ref.New([]int{b, cl})
+						x := code
+						for r := 0; r < b; r++ {
+							copy(t.V[r*cl:(r+1)*cl], pats[x%len(pats)])
+							x /= len(pats)
+						}
+						return c13Run("CE", p, t, form, false)
+					})
+				}
+			}
+		}
+	}
 	// larger batches / class counts, generic interior values, every upstream form
 	for _, cf := range []cfg{{"MSE", []int{5}}, {"MSE", []int{33}}, {"BCE", []int{7}}, {"BCE", []int{33}}, {"CE", []int{5, 4}}, {"CE", []int{2, 9}}} {
 		for form := 0; form < nUpstreamForms; form++ {
@@ -320,7 +351,7 @@ func checkC15(c *core.Ctx) {
 			}
 		}
 	}
-	shapes = append(shapes, []int{5}, []int{33}, []int{2, 7}, []int{4, 5, 2})
+	shapes = append(shapes, []int{5}, []int{33}, []int{2, 7}, []int{4, 5, 2}, []int{16}, []int{600})
 	for _, s := range shapes {
 		for _, act := range c15Acts(len(s)) {
 			for vi := 0; vi < 4; vi++ {
